@@ -1,3 +1,457 @@
 import Sozu.State.Lemmas
+/-
+C05 / C06 / C07 — property theorems about the model of `ConfigState`
+(`Sozu/State/Model.lean`). Only property statements (`C05_*`, `C06_*`, `C07_*`),
+the predicates they mention and non-vacuity examples live here.
+-/
+set_option linter.unusedSimpArgs false
+set_option linter.unusedVariables false
 namespace Sozu.State
+open Sozu KMap
+
+/-! ## C07 — a rejected configuration command leaves no trace -/
+
+/-- every backend `Vec` of the state is in `Backend::cmp` order (what `add_backend`'s
+    `sort()` maintains) -/
+def BucketsSorted (s : St) : Prop :=
+  ∀ t l, look s t = some (.backends l) → SortedB l
+
+/-- the three command shapes whose validation runs after a write in the code:
+    listener patches carrying an invalid `alpn_protocols` / `sozu_id_header`,
+    `ReplaceCertificate` with an unparsable new certificate, `AddCertificate` whose PEM
+    parses but whose names cannot be resolved. -/
+def LateValidation (env : Env) : Cmd → Prop
+  | .updHttpL p => ∃ h, p.sid = some h ∧ sidValid h = false
+  | .updHttpsL p => (∃ vs, p.alpn = some vs ∧ alpnValid vs = false) ∨ (∃ h, p.sid = some h ∧ sidValid h = false)
+  | .replaceCert _ _ c => env.fp c.pem = none
+  | .addCert _ c => (env.fp c.pem).isSome ∧ resolveNames env c = none
+  | _ => False
+
+theorem patchTail_err (p : HttpPatch) (l : HttpL) (h : (patchTail p l).2 = false) :
+    ∃ hd, p.sid = some hd ∧ sidValid hd = false := by
+  unfold patchTail at h
+  cases hs : p.sid with
+  | none => simp [hs] at h
+  | some hd =>
+    simp only [hs] at h
+    by_cases hv : sidValid hd = true
+    · simp [hv] at h
+    · exact ⟨hd, rfl, by simpa using hv⟩
+
+/-- on every verb outside `LateValidation`, an `Err` leaves the addressed entry as it was -/
+theorem loc_err_noop (env : Env) (c : Cmd) (v : Option Val)
+    (hsorted : ∀ l, v = some (.backends l) → SortedB l)
+    (hz : ¬ LateValidation env c) (herr : (loc env c v).2 = false) : (loc env c v).1 = v := by
+  cases c with
+  | addCluster cl =>
+    simp only [loc] at herr ⊢
+    cases hh : cl.hc with
+    | none => simp [hh] at herr
+    | some hc => by_cases hv : hc.valid = true <;> simp [hh, hv] at herr ⊢
+  | removeCluster id => cases v <;> simp [loc, removeEntry] at herr ⊢
+  | setHC id hc =>
+    simp only [loc] at herr ⊢
+    by_cases hv : hc.valid = true
+    · simp only [hv] at herr ⊢
+      cases v with
+      | none => rfl
+      | some x => cases x <;> simp at herr ⊢
+    · simp [hv]
+  | removeHC id =>
+    cases v with
+    | none => rfl
+    | some x => cases x <;> simp [loc] at herr ⊢
+  | addHttpL l => cases v <;> simp [loc] at herr ⊢
+  | addHttpsL l => cases v <;> simp [loc] at herr ⊢
+  | addTcpL l => cases v <;> simp [loc] at herr ⊢
+  | addUdpL l => cases v <;> simp [loc] at herr ⊢
+  | removeListener ty a => cases v <;> simp [loc, removeEntry] at herr ⊢
+  | activate ty a =>
+    cases v with
+    | none => rfl
+    | some x => cases x <;> simp [loc, setActive] at herr ⊢
+  | deactivate ty a =>
+    cases v with
+    | none => rfl
+    | some x => cases x <;> simp [loc, setActive] at herr ⊢
+  | addHttpF f =>
+    cases v with
+    | some x => rfl
+    | none => cases hf : toFrontend f <;> simp [loc, addFront, hf] at herr ⊢
+  | removeHttpF f => cases v <;> simp [loc, removeEntry] at herr ⊢
+  | addHttpsF f =>
+    cases v with
+    | some x => rfl
+    | none => cases hf : toFrontend f <;> simp [loc, addFront, hf] at herr ⊢
+  | removeHttpsF f => cases v <;> simp [loc, removeEntry] at herr ⊢
+  | addCert a cert =>
+    simp only [loc] at herr ⊢
+    cases hfp : env.fp cert.pem with
+    | none => simp
+    | some fp =>
+      simp only [hfp] at herr ⊢
+      cases hr : resolveNames env cert with
+      | none => exact absurd ⟨by simp [hfp], hr⟩ hz
+      | some c' =>
+        simp only [hr] at herr
+        split at herr <;> simp at herr
+  | removeCert a fp =>
+    cases fp with
+    | none => rfl
+    | some fp =>
+      cases v with
+      | none => simp [loc] at herr
+      | some x => cases x <;> simp [loc] at herr
+  | replaceCert a old cert =>
+    cases old with
+    | none => rfl
+    | some old =>
+      cases v with
+      | none => rfl
+      | some x =>
+        cases x <;> simp only [loc] at herr ⊢
+        next m =>
+          cases hfp : env.fp cert.pem with
+          | none => exact absurd hfp hz
+          | some nfp => simp [hfp] at herr
+  | addTcpF f =>
+    simp only [loc, addTcpFront] at herr ⊢
+    split at herr
+    · next hc =>
+      cases v with
+      | none => simp [tfsOf] at hc
+      | some x => cases x <;> simp_all [tfsOf]
+    · simp at herr
+  | removeTcpF f =>
+    cases v with
+    | none => rfl
+    | some x =>
+      cases x <;> simp only [loc, removeTcpFront] at herr ⊢
+      next l =>
+        have hl : (l.filter fun x => decide (x.addr ≠ canon f.addr)).length = l.length := by simpa using herr
+        rw [filter_eq_self_of_length _ _ hl]
+  | addUdpF f =>
+    simp only [loc, addTcpFront] at herr ⊢
+    split at herr
+    · next hc =>
+      cases v with
+      | none => simp [tfsOf] at hc
+      | some x => cases x <;> simp_all [tfsOf]
+    · simp at herr
+  | removeUdpF f =>
+    cases v with
+    | none => rfl
+    | some x =>
+      cases x <;> simp only [loc, removeTcpFront] at herr ⊢
+      next l =>
+        have hl : (l.filter fun x => decide (x.addr ≠ canon f.addr)).length = l.length := by simpa using herr
+        rw [filter_eq_self_of_length _ _ hl]
+  | addBackend b => simp [loc] at herr
+  | removeBackend cid bid addr =>
+    cases v with
+    | none => rfl
+    | some x =>
+      cases x <;> simp only [loc] at herr ⊢
+      next l =>
+        have hl : (sortB (l.filter fun x => decide (x.id ≠ bid ∨ x.addr ≠ canon addr))).length = l.length := by
+          simpa using herr
+        rw [length_sortB] at hl
+        rw [filter_eq_self_of_length _ _ hl, sortB_of_sorted l (hsorted l rfl)]
+  | updHttpL p =>
+    simp only [loc] at herr ⊢
+    by_cases hk : knobsValid p.knobs = true
+    · simp only [hk] at herr ⊢
+      cases v with
+      | none => rfl
+      | some x =>
+        cases x <;> simp at herr ⊢
+        next l => exact absurd (patchTail_err p _ herr) hz
+    · simp [hk]
+  | updHttpsL p =>
+    simp only [loc] at herr ⊢
+    by_cases hk : knobsValid p.knobs = true
+    · simp only [hk] at herr ⊢
+      cases v with
+      | none => rfl
+      | some x =>
+        cases x <;> simp at herr ⊢
+        next l =>
+          exfalso; apply hz
+          unfold applyHttpsPatch at herr
+          cases ha : p.alpn with
+          | none => simp only [ha] at herr; exact Or.inr (patchTail_err p _ herr)
+          | some vs =>
+            simp only [ha] at herr
+            by_cases hv : alpnValid vs = true
+            · simp only [hv, if_true] at herr; exact Or.inr (patchTail_err p _ herr)
+            · exact Or.inl ⟨vs, ha, by simpa using hv⟩
+    · simp [hk]
+  | updTcpL p =>
+    cases v with
+    | none => rfl
+    | some x => cases x <;> simp [loc] at herr ⊢
+  | updUdpL p =>
+    cases v with
+    | none => rfl
+    | some x => cases x <;> simp [loc] at herr ⊢
+  | other ok => simp [loc] at herr
+  | empty => rfl
+
+/-- **C07 (accepted or not, a command touches only the entry it names).** Every map entry
+    other than the one the command addresses — in every map, listeners and certificates
+    included — is unchanged by `dispatch`, whatever it returns. -/
+theorem C07_ok_touches_only_named (env : Env) (s : St) (c : Cmd) (t : Target)
+    (h : tgt c ≠ some t) : look (dispatch env s c).1 t = look s t := by
+  rw [look_dispatch]; simp [h]
+
+/-- **C07 (error is a no-op), proved part.** For every state whose backend lists are sorted
+    and every command outside the three late-validation shapes, an `Err` from `dispatch`
+    leaves every entry of every map exactly as it was. -/
+theorem C07_error_is_noop_partial (env : Env) (s : St) (c : Cmd)
+    (hs : BucketsSorted s) (hz : ¬ LateValidation env c)
+    (herr : (dispatch env s c).2 = false) : Same (dispatch env s c).1 s := by
+  intro t
+  rw [look_dispatch]
+  by_cases ht : tgt c = some t
+  · simp only [ht, if_true]
+    rw [dispatch_result, ht] at herr
+    exact loc_err_noop env c _ (fun l hl => hs t l hl) hz herr
+  · simp [ht]
+
+/-- a concrete environment for the examples: PEMs 0–8 are certificates named `[pem]`,
+    PEM 9 parses as PEM but is not X.509, PEMs ≥ 10 do not parse. -/
+def envEx : Env :=
+  { fp := fun p => if p < 10 then some p else none,
+    names := fun p => if p < 9 then some [p] else none }
+
+def httpsEx : HttpL :=
+  { addr := 7, pub := none, expectProxy := false, sticky := 1, ft := 60, bt := 30, ct := 3, rt := 10,
+    active := true, answers := none, alpn := [], strictSni := none, disableH11 := none,
+    knobs := List.replicate 18 none, sid := none, rest := 0 }
+
+def patchEx : HttpPatch :=
+  { addr := 7, pub := none, expectProxy := none, sticky := none, ft := some 5, bt := none, ct := none,
+    rt := none, answers := none, alpn := none, strictSni := none, disableH11 := none,
+    knobs := List.replicate 18 none, sid := none, ign := 0 }
+
+def certEx (pem : Nat) : Cert := { pem, names := [], rest := 0 }
+
+theorem bucketsSorted_of_none (s : St) (h : ∀ t l, look s t ≠ some (.backends l)) : BucketsSorted s :=
+  fun t l hl => absurd hl (h t l)
+
+/-- **C07 counterexample (F5).** `UpdateHttpsListener {front_timeout: 5, alpn_protocols: ["bogus"]}`
+    on an existing listener returns `Err` and has changed `front_timeout`. -/
+theorem C07_error_is_noop_counterexample_patch :
+    ∃ (s : St) (c : Cmd), (dispatch envEx s c).2 = false ∧ ¬ Same (dispatch envEx s c).1 s := by
+  refine ⟨put St.init (.httpsL 7) (some (.hl httpsEx)),
+          .updHttpsL { patchEx with alpn := some [5] }, by decide, ?_⟩
+  intro h
+  exact absurd (h (.httpsL 7)) (by decide)
+
+/-- the same with an invalid `sozu_id_header` (empty string), http listener patch -/
+theorem C07_error_is_noop_counterexample_sid :
+    ∃ (s : St) (c : Cmd), (dispatch envEx s c).2 = false ∧ ¬ Same (dispatch envEx s c).1 s := by
+  refine ⟨put St.init (.httpL 7) (some (.hl httpsEx)),
+          .updHttpL { patchEx with sid := some [] }, by decide, ?_⟩
+  intro h
+  exact absurd (h (.httpL 7)) (by decide)
+
+/-- **C07 counterexample (F6).** `ReplaceCertificate` with an unparsable new certificate returns
+    `Err` after the old certificate has been removed. -/
+theorem C07_error_is_noop_counterexample_replace :
+    ∃ (s : St) (c : Cmd), (dispatch envEx s c).2 = false ∧ ¬ Same (dispatch envEx s c).1 s := by
+  refine ⟨(dispatch envEx St.init (.addCert 7 (certEx 0))).1, .replaceCert 7 (some 0) (certEx 11), by decide, ?_⟩
+  intro h
+  exact absurd (h (.certs 7)) (by decide)
+
+/-- **C07 counterexample (F7).** `AddCertificate` whose PEM parses but is not a certificate returns
+    `Err` and leaves an empty bucket for the address. -/
+theorem C07_error_is_noop_counterexample_orphan :
+    ∃ (s : St) (c : Cmd), (dispatch envEx s c).2 = false ∧ ¬ Same (dispatch envEx s c).1 s := by
+  refine ⟨St.init, .addCert 7 (certEx 9), by decide, ?_⟩
+  intro h
+  exact absurd (h (.certs 7)) (by decide)
+
+/-- non-vacuity of `C07_error_is_noop_partial`: a patch with a flood knob below its minimum among
+    valid fields on an existing listener is rejected, is outside `LateValidation`, and is a no-op. -/
+example :
+    let s := put St.init (.httpsL 7) (some (.hl httpsEx))
+    let c := Cmd.updHttpsL { patchEx with knobs := some 0 :: List.replicate 17 none }
+    (dispatch envEx s c).2 = false ∧ ¬ LateValidation envEx c ∧ look (dispatch envEx s c).1 (.httpsL 7) = look s (.httpsL 7) := by
+  refine ⟨by decide, ?_, by decide⟩
+  simp [LateValidation, patchEx]
+
+/-! ## C06 — applying the computed difference reaches the target -/
+
+/-- **C06 (`diff_map` is correct on sorted streams).** On strictly ascending key streams the
+    merge-join reports exactly: `Removed` for keys only in the first, `Added` for keys only in
+    the second, `Changed` for common keys with different values, nothing else. -/
+theorem C06_diffmap_correct {κ ν : Type} [DecidableEq ν] (lt : κ → κ → Bool) (h : StrictTotal lt)
+    (a b : List (κ × ν)) (ha : KeysSorted lt a) (hb : KeysSorted lt b) (k : κ) (r : DiffRes) :
+    (k, r) ∈ diffMap lt a b ↔ DiffSpec a b k r :=
+  mem_diffMapAux lt h _ a b (Nat.le_refl _) ha hb k r
+
+example : diffMap (fun (x y : Nat) => decide (x < y)) [(1, 10), (2, 20), (4, 40)] [(2, 21), (3, 30), (4, 40)]
+    = [(1, .removed), (2, .changed), (3, .added)] := by decide
+
+/-- on streams with a repeated key (two backends sharing `backend_id`) it is not:
+    the second `(c, b)` of the target is reported although the key is present on both sides. -/
+theorem C06_diffmap_correct_counterexample :
+    ¬ (∀ k r, (k, r) ∈ diffMap (fun (x y : Nat) => decide (x < y)) [(1, 10)] [(1, 10), (1, 11)] ↔
+        DiffSpec [(1, 10)] [(1, 10), (1, 11)] k r) := by
+  intro h
+  have h1 := (h 1 .added).mp (by decide)
+  rcases h1 with ⟨h, _⟩ | ⟨_, _, hn⟩ | ⟨h, _⟩
+  · cases h
+  · exact hn 10 (by simp)
+  · cases h
+
+theorem diffRemovedL_self (ty : LType) (a : St) (keys : Target → Option Nat) : diffRemovedL ty a a keys = [] := by
+  simp [diffRemovedL, filter_not_contains_self]
+
+theorem addedKeys_self (a : St) (keys : Target → Option Nat) : addedKeys a a keys = [] := by
+  simp [addedKeys, filter_not_contains_self]
+
+theorem diffCommonL_self (ty : LType) (a : St) (keys : Target → Option Nat) : diffCommonL ty a a keys = [] := by
+  unfold diffCommonL
+  apply flatMap_nil_of
+  intro k _
+  cases look a (listenerTarget ty k) <;> simp
+
+theorem diffAddedL_self (ty : LType) (a : St) (keys : Target → Option Nat) : diffAddedL ty a a keys = [] := by
+  simp [diffAddedL, addedKeys_self]
+
+theorem diffReactivate_self (ty : LType) (a : St) (keys : Target → Option Nat) : diffReactivate ty a a keys = [] := by
+  simp [diffReactivate, addedKeys_self]
+
+theorem diffClusters_self (a : St) : diffClusters a a = [] := by
+  unfold diffClusters diffMap
+  rw [diffMapAux_self _ (by intro x; simp)]
+  rfl
+
+theorem diffBackends_self (a : St) : diffBackends a a = [] := by
+  unfold diffBackends diffMap
+  rw [diffMapAux_self _ (by intro x; simp [ltPair])]
+  rfl
+
+theorem diffFronts_self (a : St) (https : Bool) : diffFronts a a https = [] := by
+  simp [diffFronts, filter_not_contains_self]
+
+theorem diffTcpFronts_self (a : St) (udp : Bool) : diffTcpFronts a a udp = [] := by
+  simp [diffTcpFronts, filter_not_contains_self]
+
+theorem diffCerts_self (a : St) : diffCerts a a = [] := by
+  simp [diffCerts, filter_not_contains_self]
+
+/-- **C06 (difference of equal configurations is empty).** -/
+theorem C06_diff_self_empty (a : St) : diff a a = [] := by
+  unfold diff
+  simp only [diffRemovedL_self, diffAddedL_self, diffReactivate_self, diffCommonL_self,
+    diffClusters_self, diffBackends_self, diffFronts_self, diffTcpFronts_self, diffCerts_self,
+    List.append_nil]
+
+/-- **C06 counterexample (F4).** `A = {cluster 1, backend 2 @ addr 4}`, `B = A + {backend 2 @ addr 5}`:
+    `diff A B` is one `AddBackend` for the address `A` already has, and replaying it does not reach `B`. -/
+theorem C06_diff_reaches_target_counterexample_backend_id :
+    let A := run envEx St.init [.addCluster { id := 1, hc := none, rest := 0 },
+      .addBackend { cluster := 1, id := 2, addr := 4, sticky := none, weight := none, backup := none }]
+    let B := run envEx A [.addBackend { cluster := 1, id := 2, addr := 5, sticky := none, weight := none, backup := none }]
+    diff A B = [.addBackend { cluster := 1, id := 2, addr := 4, sticky := none, weight := none, backup := none }] ∧
+    ¬ Equiv (run envEx A (diff A B)) B := by
+  refine ⟨by decide, ?_⟩
+  intro h
+  exact absurd (h (.backends 1)) (by decide)
+
+/-- **C06 counterexample (tcp fronts sharing an address).** A cluster holding two tcp fronts on one
+    address (different tags): removing one of them through `diff` removes both. -/
+theorem C06_diff_reaches_target_counterexample_front_address :
+    let A := run envEx St.init [.addTcpF { cluster := 1, addr := 4, tags := 0 }, .addTcpF { cluster := 1, addr := 4, tags := 1 }]
+    let B := run envEx St.init [.addTcpF { cluster := 1, addr := 4, tags := 0 }]
+    ¬ Equiv (run envEx A (diff A B)) B := by
+  intro A B h
+  exact absurd (h (.tcpF 1)) (by decide)
+
+/-- **C06 counterexample (same fingerprint, other content).** The same certificate with other
+    `names` on the same address: `diff` is empty although the configurations differ. -/
+theorem C06_diff_reaches_target_counterexample_cert_content :
+    let A := run envEx St.init [.addCert 7 (certEx 0)]
+    let B := run envEx St.init [.addCert 7 { certEx 0 with names := [42] }]
+    diff A B = [] ∧ ¬ Equiv (run envEx A (diff A B)) B := by
+  refine ⟨by decide, ?_⟩
+  intro h
+  exact absurd (h (.certs 7)) (by decide)
+
+/-! ## C05 — a configuration survives every save / replay path unchanged -/
+
+/-- **C05 (replay round trip, proved part).** For every well-formed state — one binding per key,
+    every value filed under its own key in the shape the verbs leave it, certificate names
+    resolved — replaying `generate_requests` on an empty state is accepted command by command
+    and rebuilds the same configuration (up to empty buckets). -/
+theorem C05_replay_roundtrip_partial (env : Env) (s : St) (hs : WF env s) :
+    Equiv (run env St.init (generateRequests s)) s ∧
+    allOk env St.init (generateRequests s) = true := by
+  have key : ∀ t, ∃ v', foldTO env t (none, true) (generateRequests s) = (v', true) ∧
+      norm v' = norm (look s t) := by
+    intro t
+    rw [foldTO_generate env s hs t, look_eq_find]
+    cases hf : s.find? (fun e => decide (e.1 = t)) with
+    | none => exact ⟨none, rfl, rfl⟩
+    | some e =>
+      have hmem : e ∈ s := List.mem_of_find?_eq_some hf
+      have hk : e.1 = t := by simpa using List.find?_some hf
+      obtain ⟨t', v⟩ := e
+      simp only at hk; subst hk
+      exact entry_roundtrip env t' v (hs.2 _ hmem)
+  constructor
+  · intro t
+    obtain ⟨v', h1, h2⟩ := key t
+    rw [look_run, look_init, ← foldTO_fst env t _ none true, h1]
+    exact h2
+  · apply allOk_of_foldTO env _ St.init (generate_has_target env s hs)
+    intro t
+    obtain ⟨v', h1, _⟩ := key t
+    rw [look_init, h1]
+
+/-- **C05 (replay does not depend on map iteration order).** Two request lists that present to
+    every map entry the same commands in the same order — any interleaving of the per-entry
+    request groups, i.e. any iteration order of the `BTreeMap`s / `HashMap`s — lead to the same
+    configuration. -/
+theorem C05_order_free (env : Env) (s0 : St) (cs cs' : List Cmd)
+    (h : ∀ t, cs'.filter (fun c => tgt c = some t) = cs.filter (fun c => tgt c = some t)) :
+    Same (run env s0 cs') (run env s0 cs) := by
+  intro t
+  rw [look_run, look_run, foldT_filter env t _ cs', foldT_filter env t _ cs, h t]
+
+/-- non-vacuity: a well-formed state with an active https listener, a cluster with a health
+    check, a certificate and a backend; swapping two of its generated requests is a reordering
+    in the sense of `C05_order_free`. -/
+example : WF envEx
+    [(.httpsL 7, .hl httpsEx), (.cluster 1, .cluster { id := 1, hc := some { tok := 0, valid := true }, rest := 2 }),
+     (.certs 7, .certs [(0, { pem := 0, names := [0], rest := 0 })]),
+     (.backends 1, .backends [{ cluster := 1, id := 2, addr := 4, sticky := none, weight := none, backup := none }])] := by
+  refine ⟨by decide, ?_⟩
+  intro e he
+  simp only [List.mem_cons, List.not_mem_nil, or_false] at he
+  rcases he with rfl | rfl | rfl | rfl
+  · simp [EntryOK, canon, addrMod, httpsEx]
+  · simp [EntryOK]
+  · simp [EntryOK, canon, addrMod, envEx, resolveNames]
+  · simp [EntryOK, SortedB, canon, addrMod]
+
+/-- **C05 counterexample (replaced certificate).** `ReplaceCertificate` stores the new certificate
+    without resolving its names, `AddCertificate` (used by the replay) resolves them: the replayed
+    configuration differs from the saved one. -/
+theorem C05_replay_roundtrip_counterexample_names :
+    let s := run envEx St.init [.addCert 7 (certEx 0), .replaceCert 7 (some 0) (certEx 1)]
+    ¬ Equiv (run envEx St.init (generateRequests s)) s := by
+  intro s h
+  exact absurd (h (.certs 7)) (by decide)
+
+/-- **C05 counterexample (replay fails).** The replacement is accepted for any PEM block; when it is
+    not an X.509 certificate the generated `AddCertificate` is rejected on replay. -/
+theorem C05_replay_roundtrip_counterexample_rejected :
+    let s := run envEx St.init [.addCert 7 (certEx 0), .replaceCert 7 (some 0) (certEx 9)]
+    allOk envEx St.init (generateRequests s) = false := by
+  decide
+
 end Sozu.State
